@@ -34,7 +34,17 @@ func (o goMapObject) toKey(rt *runtime, name string) reflect.Value {
 	if err != nil {
 		panic(rt.panicStoreError(err))
 	}
-	return reflectValue
+	return o.namedKey(reflectValue)
+}
+
+// namedKey converts a key built from the property name (a value of the basic
+// type of the key's kind) to the map's key type when that is a named type
+// (type K string): reflect's MapIndex / SetMapIndex insist on the exact type.
+func (o goMapObject) namedKey(key reflect.Value) reflect.Value {
+	if key.Type() != o.keyType && key.Type().ConvertibleTo(o.keyType) {
+		return key.Convert(o.keyType)
+	}
+	return key
 }
 
 func (o goMapObject) toValue(rt *runtime, value Value) reflect.Value {
@@ -61,7 +71,7 @@ func goMapGetOwnProperty(obj *object, name string) *property {
 		return nil
 	}
 
-	value := goObj.value.MapIndex(key)
+	value := goObj.value.MapIndex(goObj.namedKey(key))
 	if value.IsValid() {
 		return &property{obj.runtime.toValue(value.Interface()), 0o111}
 	}
